@@ -95,3 +95,45 @@ func Poll(budget, step time.Duration, f func() bool) bool {
 		time.Sleep(step)
 	}
 }
+
+var (
+	holeOnce sync.Once
+	holeURL  string
+	holeKeep []net.Conn
+)
+
+// Blackhole returns the base URL of a local address at which TCP connection attempts time out:
+// a listening socket with a zero backlog that never accepts, whose accept queue the harness has
+// filled. Further SYNs are dropped by the kernel, so a dial blocks until the dialler's timeout.
+// It returns "" if such an address could not be set up.
+func Blackhole() string {
+	holeOnce.Do(func() {
+		fd, err := syscall.Socket(syscall.AF_INET, syscall.SOCK_STREAM, 0)
+		if err != nil {
+			return
+		}
+		if err := syscall.Bind(fd, &syscall.SockaddrInet4{Addr: [4]byte{127, 0, 0, 1}}); err != nil {
+			return
+		}
+		if err := syscall.Listen(fd, 0); err != nil {
+			return
+		}
+		sa, err := syscall.Getsockname(fd)
+		if err != nil {
+			return
+		}
+		port := sa.(*syscall.SockaddrInet4).Port
+		addr := fmt.Sprintf("127.0.0.1:%d", port)
+		for i := 0; i < 8; i++ {
+			c, err := net.DialTimeout("tcp", addr, 300*time.Millisecond)
+			if err != nil {
+				if ne, ok := err.(net.Error); ok && ne.Timeout() {
+					holeURL = "http://" + addr // the queue is full: dials now time out
+				}
+				return
+			}
+			holeKeep = append(holeKeep, c)
+		}
+	})
+	return holeURL
+}
